@@ -32,8 +32,9 @@ def main():
     try:
         for p in a.props:
             env = dict(os.environ, VERIF_SEED=a.seed, VERIF_REPO=repo)
-            out = subprocess.run([os.path.join(HERE, "check"), p, "--tier", a.tier, "--budget", str(a.budget),
-                                  "--no-selftest", "--no-evidence"], capture_output=True, text=True, env=env, timeout=3600)
+            out = subprocess.run([os.path.join(HERE, "check"), p, "--tier", a.tier, "--no-selftest", "--no-evidence"]
+                                 + (["--budget", str(a.budget)] if a.budget > 0 else []),
+                                 capture_output=True, text=True, env=env, timeout=3600)
             viol = [l for l in out.stdout.splitlines() if l.startswith("violation:")]
             tail = out.stdout.strip().splitlines()[-1] if out.stdout.strip() else ""
             results[p] = (out.returncode, viol, tail)
